@@ -897,6 +897,24 @@ func (m *Machine) callClosure(fn *ssa.Function, env []Value, args []Value) (resu
 				return m.callClosure(stub, nil, args)
 			}
 		}
+		// a method of such a package on a receiver made by a constructor stub:
+		// vfStubM_<pkg>_<Type>_<Method>(receiver, args...)
+		if stubPkg := m.curPkg; stubPkg != nil && fn.Signature.Recv() != nil {
+			rt := fn.Signature.Recv().Type()
+			if p, ok := rt.(*types.Pointer); ok {
+				rt = p.Elem()
+			}
+			if nt, ok := rt.(*types.Named); ok {
+				short := pkgPath
+				if i := strings.LastIndex(short, "/"); i >= 0 {
+					short = short[i+1:]
+				}
+				short = strings.TrimSuffix(short, ".v3")
+				if stub := stubPkg.Func("vfStubM_" + sanitizeName(short) + "_" + nt.Obj().Name() + "_" + fn.Name()); stub != nil {
+					return m.callClosure(stub, nil, args)
+				}
+			}
+		}
 		unsupported("call to %s (package %q is not executed and has no intrinsic)", name, pkgPath)
 	}
 	if len(fn.Blocks) == 0 {
